@@ -296,6 +296,129 @@ def r4_authenticate_endpoint(ctx):
         r.anchor_missing("BearerToken::new")
 
 
+def _root_field(body, place, names, defs=None, depth=0):
+    """Name of the struct field (one of `names`) a place ultimately refers to,
+    following refs, copies, receiver-returning calls and tuple packing."""
+    defs = defs if defs is not None else cfg.defs_of(body)
+    for f in cfg.place_fields(place):
+        if f in names:
+            return f
+    if depth > 12:
+        return None
+    l = cfg.place_local(place)
+    proj = cfg.place_proj(place)
+    for (_bi, st, is_term) in defs.get(l, []):
+        if is_term:
+            if st["k"] == "call" and st["args"]:
+                p_ = cfg.op_place(st["args"][0])
+                if p_:
+                    x = _root_field(body, p_, names, defs, depth + 1)
+                    if x:
+                        return x
+            continue
+        k = st.get("k")
+        if k in ("ref", "refmut"):
+            x = _root_field(body, st["p"], names, defs, depth + 1)
+            if x:
+                return x
+        elif k in ("use", "cast"):
+            p_ = cfg.op_place(st["ops"][0])
+            if p_:
+                x = _root_field(body, p_, names, defs, depth + 1)
+                if x:
+                    return x
+        elif k == "agg" and st.get("ak") == "tuple" and proj:
+            m = re.match(r"f(\d+):", proj[0])
+            if m and int(m.group(1)) < len(st["ops"]):
+                p_ = cfg.op_place(st["ops"][int(m.group(1))])
+                if p_:
+                    x = _root_field(body, p_, names, defs, depth + 1)
+                    if x:
+                        return x
+    return None
+
+
+def r7_access_lists(ctx):
+    """Semantics of the allow/deny decision itself, as path conditions on
+    `true` answers of AccessControlConfig::is_allowed_access."""
+    ws = ctx.ws
+    r = ctx.rule("C11-R7", "is_allowed_access answers true only for an account that is on a configured allow list and was tested against a configured deny list",
+                 floor=2, kind="K2 edge-constrained path search")
+    f = ws.fn("sos_server::config::AccessControlConfig::is_allowed_access")
+    if not f:
+        r.anchor_missing("AccessControlConfig::is_allowed_access")
+        return
+    body = f.main
+    live = cfg.live_blocks(body)
+    names = ("allow", "deny")
+    some_edges = {n: set() for n in names}
+    for es in cfg.enum_switches(body):
+        if es.enum != "core::option::Option":
+            continue
+        n = _root_field(body, es.place, names)
+        if not n:
+            continue
+        if "Some" in es.targets:
+            some_edges[n].add((es.block, es.targets["Some"]))
+        elif es.otherwise_live:
+            some_edges[n].add((es.block, es.otherwise))
+    hit = {n: set() for n in names}    # edges: the account IS on the list
+    miss = {n: set() for n in names}   # edges: the account is NOT on the list
+    for i, t in idioms.real_calls(body, live):
+        if cname(t) not in ("any", "contains"):
+            continue
+        p_ = cfg.op_place(t["args"][0])
+        n = _root_field(body, p_, names) if p_ else None
+        bs = cfg.bool_switch(body, t.get("t")) if t.get("t") is not None else None
+        if n and bs:
+            hit[n].add((bs.block, bs.true_t))
+            miss[n].add((bs.block, bs.false_t))
+    for n in names:
+        if not some_edges[n] or not hit[n]:
+            r.anchor_missing("`%s` list: Some-edge %d, membership tests %d" % (n, len(some_edges[n]), len(hit[n])))
+    trues = []
+    for bi, st, is_term in cfg.defs_of(body).get(0, []):
+        if bi in live and not is_term and st.get("k") == "use":
+            c = cfg.op_const(st["ops"][0])
+            if c is not None and c.get("b") is True:
+                trues.append(bi)
+
+    def via(edges, avoid, goal):
+        """A path entry -> one of `edges` -> goal that uses none of `avoid`."""
+        r1 = cfg.reach(body, [0], cut_edges=avoid)
+        for (u, v) in sorted(edges):
+            if (u in r1 or u == 0) and (u, v) not in avoid:
+                if v == goal or goal in cfg.reach(body, [v], cut_edges=avoid):
+                    return (u, v)
+        return None
+    seen_keys = {}
+    for d in sorted(trues):
+        loc = cfg.loc(body, d)
+        k = "%s|true@%s" % (f.root, "+".join(sorted(n for n in names if via(some_edges[n], set(), d))) or "no-lists")
+        seen_keys[k] = seen_keys.get(k, 0) + 1
+        if seen_keys[k] > 1:
+            k += "#%d" % seen_keys[k]
+        e = via(some_edges["allow"], hit["allow"], d)
+        if e:
+            r.violation(k + "|absent-from-allow", loc,
+                        "with an allow list configured, `true` is returned on a path that never found the account on it: accounts absent from the allow list are served",
+                        work=len(live))
+            continue
+        e = via(hit["deny"], set(), d)
+        if e:
+            r.violation(k + "|on-deny-list", loc, "`true` is returned after the account was found on the deny list", work=len(live))
+            continue
+        e = via(some_edges["deny"], miss["deny"], d)
+        if e:
+            r.violation(k + "|deny-not-consulted", loc,
+                        "with a deny list configured, `true` is returned on a path that never tested the account against it: an account that is on both lists is served although denied entries take precedence",
+                        work=len(live))
+            continue
+        r.ok(k, loc, "true only after: allow configured => found on it; deny configured => tested and not on it", work=len(live))
+    if not trues:
+        r.anchor_missing("`true` answers of is_allowed_access")
+
+
 def r5_verify_device(ctx):
     ws = ctx.ws
     r = ctx.rule("C11-R5", "verify_device: Ok for an existing account only after a trusted key verified the signature over the message",
@@ -444,3 +567,4 @@ def run(ctx):
     r4_authenticate_endpoint(ctx)
     r5_verify_device(ctx)
     r6_trusted_set_refreshed(ctx)
+    r7_access_lists(ctx)
